@@ -91,87 +91,94 @@ func TestVerifC16BoundedStandIn(t *testing.T) {
 	mm := reg.MappingManager()
 	for _, n := range sizes {
 		for _, pat := range patterns {
-			in := make([]string, n)
-			for k := range in {
-				in[k] = vc16Pick(pat, k, n, names)
-			}
-			label := fmt.Sprintf("n=%d pattern=%s", n, pat)
-			if len(samples) < 6 {
-				samples = append(samples, label)
-			}
-			evaluated++
-			// --- mapping manager, position by position
-			us, err := mm.MapStringsToUUIDs(ctx, in...)
-			if err != nil {
-				fail("map-strings-error", label, err.Error())
-				continue
-			}
-			if len(us) != n {
-				fail("uuid-count", label, fmt.Sprintf("got %d uuids for %d strings", len(us), n))
-				continue
-			}
-			for a := 0; a < n; a++ {
-				for b := a + 1; b < n && b < a+4; b++ {
-					if (in[a] == in[b]) != (us[a] == us[b]) {
-						fail("aliasing", label, fmt.Sprintf("positions %d,%d: strings equal=%v uuids equal=%v", a, b, in[a] == in[b], us[a] == us[b]))
+			func() {
+				defer func() {
+					if r := recover(); r != nil {
+						fail("panic", fmt.Sprintf("n=%d pattern=%s", n, pat), fmt.Sprintf("panic on a legal batch: %v", r))
+					}
+				}()
+				in := make([]string, n)
+				for k := range in {
+					in[k] = vc16Pick(pat, k, n, names)
+				}
+				label := fmt.Sprintf("n=%d pattern=%s", n, pat)
+				if len(samples) < 6 {
+					samples = append(samples, label)
+				}
+				evaluated++
+				// --- mapping manager, position by position
+				us, err := mm.MapStringsToUUIDs(ctx, in...)
+				if err != nil {
+					fail("map-strings-error", label, err.Error())
+					return
+				}
+				if len(us) != n {
+					fail("uuid-count", label, fmt.Sprintf("got %d uuids for %d strings", len(us), n))
+					return
+				}
+				for a := 0; a < n; a++ {
+					for b := a + 1; b < n && b < a+4; b++ {
+						if (in[a] == in[b]) != (us[a] == us[b]) {
+							fail("aliasing", label, fmt.Sprintf("positions %d,%d: strings equal=%v uuids equal=%v", a, b, in[a] == in[b], us[a] == us[b]))
+						}
 					}
 				}
-			}
-			back, err := mm.MapUUIDsToStrings(ctx, us...)
-			lookups++
-			if err != nil {
-				fail("map-uuids-error", label, err.Error())
-				continue
-			}
-			if len(back) != n {
-				fail("string-count", label, fmt.Sprintf("got %d strings for %d uuids", len(back), n))
-				continue
-			}
-			for k := range in {
-				if back[k] != in[k] {
-					fail("position", label, fmt.Sprintf("position %d: wrote %q, read %q", k, in[k], back[k]))
-					break
+				back, err := mm.MapUUIDsToStrings(ctx, us...)
+				lookups++
+				if err != nil {
+					fail("map-uuids-error", label, err.Error())
+					return
 				}
-			}
-			// --- the Mapper on top of it: tuples whose object / subject names are the batch
-			var ts []*ketoapi.RelationTuple
-			for k := 0; k+1 < n && k < 240; k += 2 {
-				tp := &ketoapi.RelationTuple{Namespace: "n", Object: in[k], Relation: "r"}
-				if (k/2)%2 == 0 {
-					s := in[k+1]
-					tp.SubjectID = &s
-				} else {
-					tp.SubjectSet = &ketoapi.SubjectSet{Namespace: "m", Object: in[k+1], Relation: "rel" + fmt.Sprint(k%5)}
+				if len(back) != n {
+					fail("string-count", label, fmt.Sprintf("got %d strings for %d uuids", len(back), n))
+					return
 				}
-				ts = append(ts, tp)
-			}
-			if len(ts) == 0 {
-				continue
-			}
-			its, err := reg.Mapper().FromTuple(ctx, ts...)
-			if err != nil {
-				fail("from-tuple-error", label, err.Error())
-				continue
-			}
-			rt, err := reg.ReadOnlyMapper().ToTuple(ctx, its...)
-			lookups++
-			if err != nil {
-				fail("to-tuple-error", label, err.Error())
-				continue
-			}
-			if len(rt) != len(ts) {
-				fail("tuple-count", label, fmt.Sprintf("%d tuples in, %d out", len(ts), len(rt)))
-				continue
-			}
-			for k := range ts {
-				if rt[k].String() != ts[k].String() || rt[k].Object != ts[k].Object ||
-					(ts[k].SubjectID == nil) != (rt[k].SubjectID == nil) ||
-					(ts[k].SubjectID != nil && *ts[k].SubjectID != *rt[k].SubjectID) ||
-					(ts[k].SubjectSet != nil && (rt[k].SubjectSet == nil || *ts[k].SubjectSet != *rt[k].SubjectSet)) {
-					fail("tuple-round-trip", label, fmt.Sprintf("tuple %d: wrote %q, read %q", k, ts[k].String(), rt[k].String()))
-					break
+				for k := range in {
+					if back[k] != in[k] {
+						fail("position", label, fmt.Sprintf("position %d: wrote %q, read %q", k, in[k], back[k]))
+						break
+					}
 				}
-			}
+				// --- the Mapper on top of it: tuples whose object / subject names are the batch
+				var ts []*ketoapi.RelationTuple
+				for k := 0; k+1 < n && k < 240; k += 2 {
+					tp := &ketoapi.RelationTuple{Namespace: "n", Object: in[k], Relation: "r"}
+					if (k/2)%2 == 0 {
+						s := in[k+1]
+						tp.SubjectID = &s
+					} else {
+						tp.SubjectSet = &ketoapi.SubjectSet{Namespace: "m", Object: in[k+1], Relation: "rel" + fmt.Sprint(k%5)}
+					}
+					ts = append(ts, tp)
+				}
+				if len(ts) == 0 {
+					return
+				}
+				its, err := reg.Mapper().FromTuple(ctx, ts...)
+				if err != nil {
+					fail("from-tuple-error", label, err.Error())
+					return
+				}
+				rt, err := reg.ReadOnlyMapper().ToTuple(ctx, its...)
+				lookups++
+				if err != nil {
+					fail("to-tuple-error", label, err.Error())
+					return
+				}
+				if len(rt) != len(ts) {
+					fail("tuple-count", label, fmt.Sprintf("%d tuples in, %d out", len(ts), len(rt)))
+					return
+				}
+				for k := range ts {
+					if rt[k].String() != ts[k].String() || rt[k].Object != ts[k].Object ||
+						(ts[k].SubjectID == nil) != (rt[k].SubjectID == nil) ||
+						(ts[k].SubjectID != nil && *ts[k].SubjectID != *rt[k].SubjectID) ||
+						(ts[k].SubjectSet != nil && (rt[k].SubjectSet == nil || *ts[k].SubjectSet != *rt[k].SubjectSet)) {
+						fail("tuple-round-trip", label, fmt.Sprintf("tuple %d: wrote %q, read %q", k, ts[k].String(), rt[k].String()))
+						break
+					}
+				}
+			}()
 		}
 	}
 	out, _ := json.Marshal(map[string]any{"evaluated": evaluated, "lookups": lookups, "sizes": sizes, "patterns": patterns,
